@@ -147,7 +147,11 @@ function genSpec(seed, idx) {
         if (rl.length) { const r = rng.pick(rl); for (const x of lts) if (x !== r && rng.chance(5, 6)) addBound(x, r); }
     }
     const implBounds = owner.bounds.map(([l, s]) => [implLts[owner.lts.indexOf(l)], implLts[owner.lts.indexOf(s)]]).filter(([l, s]) => l !== "static" && s !== "static");
-    methods.push({ owner: owner.name, name: "m" + m, static: isStatic, lts, implLts, implBounds, self, params, ret, bounds });
+    // special-method attributes change how the binding exposes the method (`new T(..)`, a property), not what it borrows
+    let special = null;
+    if (isStatic && (rkind === "box" || rkind === "resbox") && ret.ty === owner.name && !methods.some((x) => x.owner === owner.name && x.special === "constructor") && rng.chance(1, 2)) special = "constructor";
+    else if (!isStatic && params.length === 0 && rng.chance(1, 2)) special = "getter";
+    methods.push({ owner: owner.name, name: "m" + m, static: isStatic, lts, implLts, implBounds, self, params, ret, bounds, special });
   }
   return { seed, idx, opaques, structs, outs, methods };
 }
@@ -218,6 +222,7 @@ export function rustSource(spec) {
       // bounds whose longer side is a lifetime of the impl block go into a where clause
       const outer = [...new Set(m.bounds.filter((b) => !m.lts.includes(b[0])).map((b) => b[0]))];
       const where = outer.length ? " where " + outer.map((l) => lt(l) + ": " + m.bounds.filter((b) => b[0] === l).map((b) => lt(b[1])).join(" + ")).join(", ") : "";
+      if (m.special) s += "        #[diplomat::attr(auto, " + m.special + ")]\n";
       s += "        pub fn " + m.name + generics(m.lts, m.bounds) + "(" + ps.join(", ") + ") -> " + retTy(m.ret) + where + " { unimplemented!() }\n";
       s += "    }\n\n";
     }
